@@ -15,10 +15,10 @@ import (
 
 func init() {
 	register(&propCheck{
-		id:    "C11",
-		level: "other",
+		id:          "C11",
+		level:       "other",
 		explanation: "Static decision of the tables whose order and completeness the property singles out: (D1) the deserialiser's decision list (a 30-way chain of equality and substring tests) is evaluated symbolically for the text of every error kind — as is and blank-padded (upper-cased variants are reported as information only: serialisation never changes case) — and the first matching case must return that very kind; kind texts contain neither ':' nor a newline (the serialised form splits on them); (D2) every kind appears in IsCommonError and has a case of its own; (D3) Errorf's format has exactly one %w, first, bound to the target kind after ConvertContextError / the ErrUnknown default, and WrapError lets a cancellation/deadline cause replace the target; (D4) the converters named by the property pass their argument through ConvertContextError before any classification, and a pass-through case for ErrTimeout/ErrCancelled precedes every re-classifying case; (D5) every call of commonerrors.Any/None outside tests has at least one candidate (a call with the target alone is constantly false/true: the condition it was written for is never mapped). (D7) the separator the constructors write between kind and reason is the one the deserialiser splits on, and joined errors are written and split on the newline errors.Join uses; (D6) the deserialiser re-joins every ':'-separated element after the kind into the reason, empty ones included (unconditional append in a loop from index 1). Decided on the typed AST and SSA with go/constant; nothing is executed. Not decided: arbitrary reasons and wrapping chains (string behaviour of fmt/errors/strings), joined errors, errors.Is itself.",
-		run:   runC11,
+		run:         runC11,
 		assumptions: []string{
 			"errors.Is and fmt.Errorf(\"%w\") behave as documented",
 		},
